@@ -58,11 +58,13 @@ func kindRank(k string) int {
 // the given kind: awkward names for plain directories, hash-colliding names
 // for sharded ones (so that fanout 8 nests several shard levels).
 func childNames(kind string) []string {
+	// names that differ only by leading/trailing white space are siblings on
+	// purpose: a selector that normalises its path would confuse them
 	if kind == "hamt" {
 		c := gen.Colliders("k", 12, 3)
-		return []string{c[0], c[1], "b c", c[2], "é", ".."}
+		return []string{c[0], c[1], c[0] + " ", c[2], "é", ".."}
 	}
-	return []string{"a", "b c", "é", "0", "..", "%2F"}
+	return []string{"a", "a ", "é", " a", "..", "%2F"}
 }
 
 // enumTrees lists every tree with at most maxNodes nodes whose children are in
@@ -235,6 +237,10 @@ func pathVariants(segs []string) (same []string, other []string) {
 		}
 	}
 	if len(segs) > 0 {
+		// white space is legal in names: decorated paths name other entries
+		for _, ws := range []string{" ", "\t", "\n", "\u00a0", "\u3000"} {
+			other = append(other, canon+ws, ws+canon, canon+ws+"/", "/"+ws+canon)
+		}
 		last := segs[len(segs)-1]
 		head := strings.Join(segs[:len(segs)-1], "/")
 		if head != "" {
